@@ -316,17 +316,36 @@ def fold_decision_table(ctx, m):
     meths = {k: v for k, v in m.methods.items()}
     mism = {}
     n = 0
+    # engine fields that __init__ creates empty (memo tables, counters ...): part of the model, so that what the decision functions keep between
+    # calls is seen by the history step below
+    init_fields = {}
+    for st_ in m.method('__init__').body:
+        if isinstance(st_, ast.Assign) and len(st_.targets) == 1 and is_self_attr(st_.targets[0]) and st_.targets[0].attr not in ('_operation_policies', '_logger'):
+            v_ = st_.value
+            if isinstance(v_, ast.Constant) or (isinstance(v_, (ast.Dict, ast.List, ast.Set)) and not ast.dump(v_).count('elts=[') - 1 > 0 and not getattr(v_, 'keys', None) and not getattr(v_, 'elts', None)) \
+                    or (isinstance(v_, ast.Call) and call_name(v_) in ('dict', 'list', 'set', 'collections.OrderedDict') and not v_.args and not v_.keywords):
+                init_fields[st_.targets[0].attr] = v_
+
+    def fresh_self(pol):
+        sv = {'__attrs__': ('_operation_policies', '_logger') + tuple(init_fields), '_operation_policies': ({'P': pol} if pol is not None else {}), '_logger': Opaque('logger')}
+        for k_, v_ in init_fields.items():
+            sv[k_] = v_.value if isinstance(v_, ast.Constant) else ({} if isinstance(v_, ast.Dict) or (isinstance(v_, ast.Call) and call_name(v_) in ('dict', 'collections.OrderedDict')) else (set() if isinstance(v_, ast.Set) or (isinstance(v_, ast.Call) and call_name(v_) == 'set') else []))
+        return sv
+
+    def decide_on(selfv, groups, is_owner):
+        f = Folder(models={'self._get_enum_string': lambda x: str(x)}, methods=meths, steps=50000)
+        # the object belongs to alice; the requester is alice (the owner) or bob
+        ident = ('alice' if is_owner else 'bob', None if groups is None else list(groups))
+        try:
+            return f.call_method(decide, selfv, ['P', ident, 'alice', T, OP], {})
+        except Raised as ex:
+            return 'raises %s' % ex.name
     try:
         for pname, pol in policies:
             for gname, groups in groupsets:
                 for is_owner in (True, False):
-                    f = Folder(models={'self._get_enum_string': lambda x: str(x)}, methods=meths, steps=50000)
-                    selfv = {'__attrs__': ('_operation_policies', '_logger'), '_operation_policies': ({'P': pol} if pol is not None else {}), '_logger': Opaque('logger')}
-                    ident = ('alice', None if groups is None else list(groups))
-                    try:
-                        got = f.call_method(decide, selfv, ['P', ident, 'alice' if is_owner else 'bob', T, OP], {})
-                    except Raised as ex:
-                        got = 'raises %s' % ex.name
+                    selfv = fresh_self(pol)
+                    got = decide_on(selfv, groups, is_owner)
                     n += 1
                     want = spec(pol, groups, is_owner)
                     if bool(got) is not want or isinstance(got, str):
@@ -338,6 +357,34 @@ def fold_decision_table(ctx, m):
                         mism.setdefault(cls[0], (cls[1], '%s; %s; requester is %sthe owner -> %s (table: %s)' % (pname, gname, '' if is_owner else 'not ', got, want), 0))
                         fn_, w_, c_ = mism[cls[0]]
                         mism[cls[0]] = (fn_, w_, c_ + 1)
+        # history step: the decision for a request does not depend on what the engine decided before - a different requester, another group
+        # list, or the policy store as it was before the monitor replaced / removed the entry.  Each scenario of a reduced set is decided on an engine
+        # that first decided a neighbouring scenario (same shared store object, updated in place as the monitor does) and on a fresh one.
+        n_h = 0
+        small = [(pn_, p_) for pn_, p_ in policies if p_ is None or set(p_) == {'preset'}] + [(pn_, p_) for pn_, p_ in policies if p_ is not None and set(p_) == {'groups'}][:3]
+        alt_pols = [(pn_, p_) for pn_, p_ in small if pn_ in ('no such policy', 'preset=ALLOW_ALL', 'preset=ALLOW_OWNER', 'preset=DISALLOW_ALL')]
+        for pname, pol in small:
+            for gname, groups in groupsets:
+                for is_owner in (True, False):
+                    want_ = decide_on(fresh_self(pol), groups, is_owner)
+                    preds = [(pname, pol, groups, not is_owner, 'another requester'), (pname, pol, (['g1'] if groups != ['g1'] else None), is_owner, 'other group information')]
+                    preds += [(apn, ap, groups, is_owner, 'the policy as it was before the store changed') for apn, ap in alt_pols if apn != pname]
+                    for ppn, ppol, pgroups, powner, what in preds:
+                        selfv = fresh_self(ppol)
+                        decide_on(selfv, pgroups, powner)
+                        store = selfv['_operation_policies']
+                        store.clear()
+                        if pol is not None:
+                            store['P'] = pol
+                        got_ = decide_on(selfv, groups, is_owner)
+                        n_h += 1
+                        if bool(got_) is not bool(want_) or isinstance(got_, str) != isinstance(want_, str):
+                            key_ = 'KmipEngine._is_allowed_by_operation_policy|decision-depends-on-history|%s' % what
+                            mism.setdefault(key_, (decide, 'after deciding [%s; %s; requester is %sthe owner] the decision for [%s; %s; requester is %sthe owner] is %s, a fresh engine decides %s' % (
+                                ppn, 'groups %s' % pgroups, '' if powner else 'not ', pname, gname, '' if is_owner else 'not ', got_, want_), 0))
+                            fn_, w_, c_ = mism[key_]
+                            mism[key_] = (fn_, w_, c_ + 1)
+        ctx.count('decision_histories_folded', n_h)
     except Unfoldable as ex:
         ctx.note('C03.R5: the decision functions cannot be folded (%s); structural rules used instead' % ex)
         return False
